@@ -148,7 +148,13 @@ impl<K: OneRttKey> KeySet<K> {
 
         match result {
             Ok(packet) => {
-                let generation = if packet_phase != self.key_phase() {
+                // While a key update is in progress the other key slot still holds the previous
+                // generation, which is only retained to process delayed packets. A packet that
+                // was opened with it must not be mistaken for a key update by the peer,
+                // otherwise the endpoint would go back to protecting packets with the old keys.
+                let generation = if packet_phase != self.key_phase()
+                    && !self.key_update_in_progress()
+                {
                     //= https://www.rfc-editor.org/rfc/rfc9001#section-6.2
                     //# Sending keys MUST be updated before sending an
                     //# acknowledgement for the packet that was received with updated keys.
